@@ -302,7 +302,18 @@ func forEachCorpusText(c *core.Ctx, opt corpusOpt, f func(family, text string) b
 			}
 		}
 	}
-	bounds = append(bounds, "repeated-key map literals; 8 signed-operand heads x 7 chain links x lengths 1..1000")
+	// long chains of same-precedence operators with one parenthesised group inside (at the start, the middle, the end)
+	for _, n := range []int{5, 63, 64, 65, 199, 200, 201, 202, 250, 1000} {
+		for _, ops := range [][2]string{{"+", "-"}, {"+", "|"}, {"+", "^"}, {"-", "+"}, {"*", "/"}, {"*", "%"}, {"&&", "&&"}, {"==", "=="}} {
+			chain := strings.Repeat(" "+ops[0]+" t", n)
+			group := "(lo " + ops[0] + " hi)"
+			for _, t := range []string{"t" + chain + " " + ops[1] + " " + group + " " + ops[0] + " c", group + " " + ops[1] + " t" + chain, "t" + chain[:len(chain)/2] + " " + ops[1] + " " + group + chain[len(chain)/2:],
+				"t" + chain + " " + ops[1] + " (lo " + ops[0] + " (hi " + ops[1] + " z))"} {
+				emit("chains", t)
+			}
+		}
+	}
+	bounds = append(bounds, "repeated-key map literals; 8 signed-operand heads x 7 chain links x lengths 1..1000; chains of 5..1000 same-precedence operators holding one parenthesised group (8 operator pairs x 4 positions)")
 	// wide programs: one small construct repeated 12000 times in sequence (counters that must go back down)
 	for _, unit := range []string{"if a { 1 } else if b { 2 } else { 3 }\n", "(a)\n", "f(a)\n", "x = [a, [b]]\n", "y = {1: {2: 3}}\n", "z = p => { p }\n", "func g() { if a { 1 } }\n", "a[0][1]\n", "-(-a)\n", "for a { if b { 1 } else if c { 2 } }\n", "/* c */ a\n", "\"s\"\n"} {
 		emit("wide", strings.Repeat(unit, 12000))
